@@ -105,6 +105,7 @@ MONADS = {
     "proj": ("{x+y}(1;)", "pm(p)"),
     "named": ("fm", "fm(p)"),                      # fm::{(x*3)+1}
     "py": ("pym", "pym(p)"),                       # Python callable, logs its calls
+    "pycap": ("pycap", "pycap(p)"),                # Python callable with a fixpoint (converges), logs its calls
 }
 PREDS = {
     "lt10": "{x<10}", "lt0": "{x<0}", "never": "{0}", "short": "{(#x)<4}", "lt30": "{x<30}",
@@ -140,8 +141,12 @@ class World:
         def pym(x):
             self.log.append(["m", canon(x)])
             return x + 1
+        def pycap(x):
+            self.log.append(["m", canon(x)])
+            return x if x > 5 else x + 1
         k["pyd"] = pyd
         k["pym"] = pym
+        k["pycap"] = pycap
         # deterministic kill budget: every verb application and every function call passes through eval
         orig_eval = k.eval
 
